@@ -16,7 +16,10 @@ PID = "C18"
 ROOT = "SampleGenerator"
 VALUE_PRESERVING = {"rename", "rename_all", "alias", "deny_unknown_fields", "bound", "crate", "expecting"}
 STD_CONTAINERS = ("alloc::vec::Vec", "std::vec::Vec", "core::option::Option", "std::option::Option",
-                  "alloc::boxed::Box", "std::boxed::Box", "alloc::string::String", "std::string::String")
+                  "alloc::boxed::Box", "std::boxed::Box", "alloc::string::String", "std::string::String",
+                  "alloc::collections::btree::map::BTreeMap", "alloc::collections::btree::set::BTreeSet", "alloc::collections::vec_deque::VecDeque",
+                  "std::collections::hash::map::HashMap", "std::collections::hash::set::HashSet", "core::marker::PhantomData",
+                  "std::hash::random::RandomState", "core::ops::range::Range", "core::result::Result")
 PRIMS = {"f64", "f32", "usize", "isize", "u8", "u16", "u32", "u64", "u128", "i8", "i16", "i32", "i64", "i128", "bool", "char", "str"}
 
 
